@@ -335,3 +335,84 @@ func TestFindingF8CloseReadDrainError(t *testing.T) {
 		t.Fatalf("response body never closed after a failed drain")
 	}
 }
+
+// blockingBody delivers data, then blocks until the context ends and reports the
+// context's error, like net/http's response bodies do.
+type blockingBody struct {
+	ctx     context.Context
+	data    *bytes.Reader
+	onBlock func() // called when the data is exhausted, before blocking
+}
+
+func (b *blockingBody) Read(p []byte) (int, error) {
+	if b.data.Len() > 0 {
+		return b.data.Read(p)
+	}
+	if b.onBlock != nil {
+		go b.onBlock()
+	}
+	<-b.ctx.Done()
+	return 0, b.ctx.Err()
+}
+func (b *blockingBody) Close() error { return nil }
+
+// F9 (C15): a cancellation that interrupts a blocked Receive must surface as canceled.
+func TestFindingF9CancelDuringReceive(t *testing.T) {
+	msg, _ := proto.Marshal(&pingv1.CountUpResponse{Number: 42})
+	for _, tc := range []struct {
+		name, contentType string
+		opts              []connect.ClientOption
+		cut               int // bytes of the second envelope delivered before blocking
+	}{
+		{"connect/between-messages", "application/connect+proto", nil, 0},
+		{"connect/mid-prefix", "application/connect+proto", nil, 3},
+		{"grpc/between-messages", "application/grpc+proto", []connect.ClientOption{connect.WithGRPC()}, 0},
+		{"grpcweb/mid-payload", "application/grpc-web+proto", []connect.ClientOption{connect.WithGRPCWeb()}, 6},
+	} {
+		t.Run(tc.name, func(t *testing.T) {
+			ctx, cancel := context.WithCancel(context.Background())
+			defer cancel()
+			data := append(envelopeBytes(0, msg), envelopeBytes(0, msg)[:tc.cut]...)
+			httpClient := fakeHTTPClient(func(r *http.Request) (*http.Response, error) {
+				return &http.Response{StatusCode: 200, Status: "OK", ProtoMajor: 2,
+					Header: http.Header{"Content-Type": []string{tc.contentType}},
+					Body:   &blockingBody{ctx: ctx, data: bytes.NewReader(data)}, Request: r}, nil
+			})
+			client := pingv1connect.NewPingServiceClient(httpClient, "http://example.com", tc.opts...)
+			ss, err := client.CountUp(ctx, connect.NewRequest(&pingv1.CountUpRequest{Number: 1}))
+			if err != nil {
+				t.Fatal(err)
+			}
+			if !ss.Receive() {
+				t.Fatal(ss.Err())
+			}
+			go cancel()
+			if ss.Receive() {
+				t.Fatal("second Receive succeeded")
+			}
+			if got := connect.CodeOf(ss.Err()); got != connect.CodeCanceled {
+				t.Errorf("cancel during a blocked Receive: code = %v, err = %v; want canceled", got, ss.Err())
+			}
+		})
+	}
+}
+
+// F9 (C15): cancel while a unary call waits for the terminator after its response message.
+func TestFindingF9CancelDuringUnaryTerminator(t *testing.T) {
+	msg, _ := proto.Marshal(&pingv1.PingResponse{Number: 42})
+	ctx, cancel := context.WithCancel(context.Background())
+	defer cancel()
+	httpClient := fakeHTTPClient(func(r *http.Request) (*http.Response, error) {
+		return &http.Response{StatusCode: 200, Status: "OK", ProtoMajor: 2,
+			Header: http.Header{"Content-Type": []string{"application/grpc+proto"}},
+			Body:   &blockingBody{ctx: ctx, data: bytes.NewReader(envelopeBytes(0, msg)), onBlock: cancel}, Request: r}, nil
+	})
+	client := pingv1connect.NewPingServiceClient(httpClient, "http://example.com", connect.WithGRPC())
+	_, err := client.Ping(ctx, connect.NewRequest(&pingv1.PingRequest{}))
+	if err == nil {
+		t.Fatal("expected an error")
+	}
+	if got := connect.CodeOf(err); got != connect.CodeCanceled {
+		t.Errorf("cancel while waiting for the trailers of a unary call: code = %v, err = %v; want canceled", got, err)
+	}
+}
